@@ -112,6 +112,11 @@ and parse_instr toks : tinstr * string list =
     (TFold (zi f, zi init, args), rest)
   | "cutoff" :: tg :: c :: rest -> (TCutoff (parse_operand tg, parse_cutoff c), rest)
   | "export" :: o :: rest -> (TExport (parse_operand o), rest)
+  | "memocall" :: m :: "lhs" :: rest -> (TMemoCall (ni m, None), rest)
+  | "memocall" :: m :: k :: rest -> (TMemoCall (ni m, Some (zi k)), rest)
+  | "memonew" :: rest ->
+    let f, rest = parse_bindfn rest in
+    (TMemoNew f, rest)
   | "bind" :: lhs :: rest ->
     let f, rest = parse_bindfn rest in
     (TBind (parse_operand lhs, f), rest)
@@ -162,6 +167,11 @@ let parse_op (line : string) : op =
   | ["dropnode"; h] -> OpDropNode (ni h)
   | ["dropvar"; x] -> OpDropVar (ni x)
   | ["dropexports"] -> OpDropExports
+  | "memonew" :: rest ->
+    let f, rest = parse_bindfn rest in
+    if rest <> [] then fail "trailing tokens after memonew";
+    OpMemoNew f
+  | ["memocall"; m; k] -> OpMemoCall (ni m, zi k)
   | ["crashat"; k] -> OpCrashAt (ni k)
   | _ -> fail ("op: " ^ line)
 
@@ -184,9 +194,12 @@ let show_ptag = function
   | PSetMaxBelowSeen -> "SetMaxBelowSeen" | PScopeNotNecessary -> "ScopeNotNecessary"
   | PRecomputeInvalid -> "RecomputeInvalid" | PNotInRch -> "NotInRch" | PAbandonedWatch -> "AbandonedWatch"
   | PInjected -> "Injected"
+  | PInvalidScope -> "InvalidScope"
   | PUnwrapNone s -> "UnwrapNone:" ^ zs s | PIndex s -> "Index:" ^ zs s | PBorrow s -> "Borrow:" ^ zs s
   | PAssert s -> "Assert:" ^ zs s | PDebugAssert s -> "Assert:" ^ zs s
-  | POverflow s -> "Overflow:" ^ zs s | PModelGap s -> "ModelGap:" ^ zs s
+  | POverflow s -> "Overflow:" ^ zs s
+  | PModelGap s when int_of_z s = 50 -> "HarnessError"       (* call of a memoised function that does not exist *)
+  | PModelGap s -> "ModelGap:" ^ zs s
 
 let show_nu = function
   | NUNecessary -> "Initialised" | NUChanged -> "Changed" | NUInvalidated -> "Invalidated"
@@ -227,6 +240,7 @@ let show_event = function
   | EvInvalidate n -> "invalidate " ^ ns n
   | EvBecameNecessary n -> "nec " ^ ns n
   | EvBecameUnnecessary n -> "unnec " ^ ns n
+  | EvMemoFn (m, k) -> Printf.sprintf "memofn %d %d" (int_of_nat m) (int_of_z k)
 
 let show_cutoff _ = "c"
 
